@@ -20,7 +20,7 @@ type c13Case struct {
 	Status     int      `json:"status"`
 	Connection []string `json:"connection"`
 	Upgrade    []string `json:"upgrade"`
-	AcceptKind string   `json:"accept"` // correct | other-key | missing | garbage
+	AcceptKind string   `json:"accept"` // correct | other-key | missing | garbage | other-case | lower-case | padded | doubled (near misses of the right value)
 	Proto      string   `json:"protocol"`
 	// ProtoMore: further Sec-WebSocket-Protocol header lines after Proto (only used with a first line that was not requested)
 	ProtoMore []string `json:"protocol_more_lines,omitempty"`
@@ -73,6 +73,32 @@ func runC13Case(rep *Report, c *c13Case, ent []byte, lines, expect, what *[]stri
 			h.Set("Sec-WebSocket-Accept", wantAccept(testKey))
 		case "garbage":
 			h.Set("Sec-WebSocket-Accept", "AAAA")
+		case "other-case", "lower-case", "padded", "doubled":
+			// near misses of the right value: base64 is case sensitive, the value is one token
+			right := wantAccept(sentKey)
+			v := []byte(right)
+			switch c.AcceptKind {
+			case "other-case":
+				for i, ch := range v {
+					if ch >= 'a' && ch <= 'z' {
+						v[i] = ch - 32
+						break
+					} else if ch >= 'A' && ch <= 'Z' {
+						v[i] = ch + 32
+						break
+					}
+				}
+			case "lower-case":
+				v = []byte(strings.ToLower(right))
+			case "padded":
+				v = []byte(right + "=")
+			case "doubled":
+				v = []byte(right + ", " + right)
+			}
+			if string(v) == right {
+				v = append(v, 'x')
+			}
+			h.Set("Sec-WebSocket-Accept", string(v))
 		}
 		if c.Proto != "" {
 			h.Set("Sec-WebSocket-Protocol", c.Proto)
@@ -339,7 +365,7 @@ func runC13(ctx *runCtx) {
 	statuses := []int{101, 101, 101, 200, 400, 426, 301}
 	conns := [][]string{{"Upgrade"}, {"upgrade"}, {"keep-alive, Upgrade"}, {"keep-alive"}, nil, {"Upgradex"}}
 	upgs := [][]string{{"websocket"}, {"WebSocket"}, {"websocket, h2c"}, {"websockets"}, nil}
-	accepts := []string{"correct", "correct", "correct", "other-key", "missing", "garbage"}
+	accepts := []string{"correct", "correct", "correct", "other-key", "missing", "garbage", "other-case", "lower-case", "padded", "doubled"}
 	// the value as a whole must be one requested name: lists, trailing commas and look-alikes are not
 	protos := []string{"", "", "chat", "CHAT", "other", "evil, chat", "chat, evil", "chat,", ",chat", "chat evil", "chatx", "superchat,chat"}
 	reqs := [][]string{nil, {"chat"}, {"superchat", "chat"}}
